@@ -456,9 +456,19 @@ func runC13(ctx *core.Ctx) {
 			}
 			chBlock := ch[0].Block().Index
 			via := func(b int) bool { return b == chBlock }
+			// the age: <the clock, read now> minus <the file's ModTime> - both operands as they come, not
+			// rounded, truncated or shifted (now.Truncate(hour) makes a file look up to an hour younger)
 			isAge := func(v ssa.Value) bool {
 				c, ok := v.(*ssa.Call)
-				return ok && ssax.CalleeName(&c.Call) == "(time.Time).Sub"
+				if !ok || ssax.CalleeName(&c.Call) != "(time.Time).Sub" {
+					return false
+				}
+				nowC, isNow := ssax.Strip(c.Call.Args[0]).(*ssa.Call)
+				if !isNow || nowC.Call.StaticCallee() != nil || nowC.Call.IsInvoke() || !isFieldLoad("now")(nowC.Call.Value) {
+					return false
+				}
+				mt, isMT := ssax.Strip(c.Call.Args[1]).(*ssa.Call)
+				return isMT && mt.Call.IsInvoke() && mt.Call.Method.Name() == "ModTime"
 			}
 			for _, r := range ug.Returns() {
 				if r.Block().Index == chBlock {
